@@ -169,7 +169,7 @@ fn main() {
                 }
             }
             let caps = util::caps_from_spec(&list);
-            let o = refimpl::opt::Opts { mask, header: refimpl::enc::Header::None, implicit_pair: true, trailing_254: true };
+            let o = refimpl::opt::Opts { mask, header: refimpl::enc::Header::None, implicit_pair: false, trailing_254: true };
             match refimpl::opt::min_cap(&input, &caps, usize::MAX, &o) {
                 Some((c, sc)) => println!("ropt   cap {} {} -> {:?}", c, sc.describe(), refimpl::enc::encode(&input, &sc).map(|x| x.0)),
                 None => println!("ropt   none"),
